@@ -8,7 +8,7 @@ use adblock::Engine;
 use std::panic::{catch_unwind, AssertUnwindSafe};
 
 fn rules() -> Vec<&'static str> {
-    vec!["||ads.example.com^", "/banner/*/img^", "@@||good.example.com^$script", "||t.example^$tag=alpha", "||r.example^$redirect=noop.js",
+    vec!["/tagpat/$tag=alpha", "||r1.example^$redirect=a", "||c1.example^$csp=b", "||ads.example.com^", "/banner/*/img^", "@@||good.example.com^$script", "||t.example^$tag=alpha", "||r.example^$redirect=noop.js",
          "||c.example^$csp=script-src 'none'", "||i.example^$important", "*$image,domain=foo.com|bar.com", "/re[0-9]+x/",
          "##.generic", "###gid", "a.com##.site", "a.com#@#.generic", "b.com##+js(sc, a, 1)", "b.com#@#+js()", "a.com##.x:style(color: red)",
          "a.com##.y:has-text(ad)", "c.com#@#.y:has-text(ad)", "example.*##.ent"]
@@ -18,7 +18,8 @@ fn exercise(e: &mut Engine) {
     e.enable_tags(&["alpha"]);
     for (u, s, t) in [("https://ads.example.com/a.js", "https://a.com/", "script"), ("https://t.example/x", "https://b.com/", "image"),
                       ("https://c.example/", "https://c.example/", "document"), ("https://x.test/re12x", "https://foo.com/", "image"),
-                      ("https://r.example/x.js", "https://a.com/", "script")] {
+                      ("https://r.example/x.js", "https://a.com/", "script"), ("https://r1.example/x.js", "https://a.com/", "script"),
+                      ("https://c1.example/", "https://c1.example/", "document"), ("https://x.test/tagpat/", "https://a.com/", "image")] {
         if let Ok(r) = Request::new(u, s, t) {
             let _ = e.check_network_request(&r);
             let _ = e.get_csp_directives(&r);
@@ -62,4 +63,31 @@ fn c10_single_byte_corruptions_fail_cleanly() {
     }
     std::panic::set_hook(prev);
     assert!(failures.is_empty(), "{} corruptions of a {}-byte buffer panic; first: byte {} := {:#04x} (was {:#04x})", failures.len(), good.len(), failures[0].0, failures[0].1, good[failures[0].0]);
+}
+
+/// OBL C10.witness.emptied_strings
+#[test]
+fn c10_emptied_strings_fail_cleanly() {
+    // every short msgpack string (fixstr header 0xa1..=0xbf followed by its bytes) replaced by the empty string: decoded rules with an
+    // empty pattern / hostname / tag / redirect name / csp directive / selector must not panic a query or a re-serialization
+    let good = Engine::from_rules_parametrised(rules(), ParseOptions::default(), true, true).serialize_raw().unwrap();
+    let prev = std::panic::take_hook();
+    std::panic::set_hook(Box::new(|_| {}));
+    let mut failures = vec![];
+    for pos in 0..good.len() {
+        let h = good[pos];
+        if !(0xa1..=0xbf).contains(&h) { continue; }
+        let n = (h - 0xa0) as usize;
+        if pos + 1 + n > good.len() { continue; }
+        let mut buf = good[..pos].to_vec();
+        buf.push(0xa0);
+        buf.extend_from_slice(&good[pos + 1 + n..]);
+        let res = catch_unwind(AssertUnwindSafe(|| {
+            let mut e = Engine::from_rules(["||before.example^"], ParseOptions::default());
+            if e.deserialize(&buf).is_ok() { exercise(&mut e); }
+        }));
+        if res.is_err() { failures.push(pos); }
+    }
+    std::panic::set_hook(prev);
+    assert!(failures.is_empty(), "{} emptied strings of a {}-byte buffer panic; first at byte {}", failures.len(), good.len(), failures[0]);
 }
